@@ -2,6 +2,7 @@
 package mon
 
 import (
+	"os"
 	"strings"
 
 	"verif/harness/internal/run"
@@ -45,3 +46,5 @@ func nondeterministic(src string) bool {
 	}
 	return false
 }
+
+var osReadFile = os.ReadFile
